@@ -458,6 +458,13 @@ func runOne(c *mon.Case, p *prog, plan cancelPlan) {
 		c.Count("runs_finished_before_interrupt", 1)
 	}
 
+	// (c) nothing of the evaluation is still active after Eval returned
+	for _, e := range events {
+		if e.Ret > retStamp && !isBg(e.Thread) && e.Kind != "cancel" {
+			fail("activity-after-return", fmt.Sprintf("event %s %s of thread %s happened (clock %d) after Eval had returned (clock %d)", e.Kind, e.Arg, e.Thread, e.Ret, retStamp))
+			break
+		}
+	}
 	// (c) goroutines
 	if len(leak.Surplus) > 0 {
 		if leak.Undecided {
@@ -553,10 +560,12 @@ func Spec() *mon.Spec {
 			"an evaluation that does not return is judged inside the case: interrupted + every goroutine blocked in two identical censuses 1 s apart = violation; otherwise inconclusive",
 		},
 		Phases: []mon.Phase{
-			{Name: "sync", Quick: 1280, Thorough: 32000, Run: runSync, GoMaxProcs: 16, Timeout: 150 * time.Second},
-			{Name: "async", Quick: 640, Thorough: 16000, Run: runAsync, GoMaxProcs: 16, Timeout: 150 * time.Second},
+			{Name: "sync", Quick: 960, Thorough: 32000, Run: runSync, GoMaxProcs: 16, Timeout: 150 * time.Second, Batch: 8},
+			{Name: "async", Quick: 480, Thorough: 16000, Run: runAsync, GoMaxProcs: 16, Timeout: 150 * time.Second, Batch: 8},
 		},
 		HangViolation: true,
-		Floors:        map[string]int{},
+		Floors: map[string]int{"distinct_nontrivial": 200, "sync_cancels_delivered": 120, "runs_interrupted": 300, "steps": 2500,
+			"cancel_positions": 200, "runs_with_events_after_interrupt": 120, "feature_peach-go": 100, "feature_peach-lambda": 50, "feature_sleepy": 50,
+			"feature_pipeline": 60, "feature_run-parallel": 40, "feature_try-finally": 50, "concurrency_seen_in_bounded_peach": 2},
 	}
 }
